@@ -58,6 +58,49 @@ Print Assumptions generated_verbs_any_order.
 (* ---- non-vacuity ---- *)
 Definition T (l : list string) : list str := map zs l.
 
+(* Content validity included: with ANY per-clause content check (a clause that fails it is a
+   ParseError) the outcome -- same head, clause map and rest, or the error -- does not depend on
+   the order.  In particular with the checks EXTRACTED from the one-token branches
+   (valid_clause gen_reserved valid_<verb>: option lists / option-table keys, capitalized log
+   rules, verifyName). *)
+Theorem checked_perm_invariant : forall res (valid : clause -> bool) V S hd cs1 cs2 rest,
+  wf_sub res V S = true -> head_ok (vhead V) hd = true ->
+  forallb (clause_ok res V S) cs1 = true -> NoDup (map fst cs1) ->
+  Permutation cs1 cs2 -> tail_ok res V S rest = true ->
+  result V (checked valid (parse_cmd res V (hd ++ flatten cs1 ++ rest))) =
+  result V (checked valid (parse_cmd res V (hd ++ flatten cs2 ++ rest))).
+Proof. exact checked_perm_invariant_proof. Qed.
+Print Assumptions checked_perm_invariant.
+
+Theorem generated_verbs_any_order_checked : forall V S, In (V, S) permutable_tables ->
+  forall (valid : clause -> bool) hd cs1 cs2 rest,
+  head_ok (vhead V) hd = true ->
+  forallb (clause_ok gen_reserved V S) cs1 = true -> NoDup (map fst cs1) ->
+  Permutation cs1 cs2 -> tail_ok gen_reserved V S rest = true ->
+  result V (checked valid (parse_cmd gen_reserved V (hd ++ flatten cs1 ++ rest))) =
+  result V (checked valid (parse_cmd gen_reserved V (hd ++ flatten cs2 ++ rest))).
+Proof. exact generated_any_order_checked_proof. Qed.
+Print Assumptions generated_verbs_any_order_checked.
+
+(* outside the 'set of optional clauses' claim, as extracted on this run: buildBid has the single
+   optional clause at (nothing to permute); makeDoneNeed / makeStatusNeed have no clause loop
+   (fixed-order grammar: in frame ... in framer ... is done) -- the translator fails otherwise *)
+Theorem bid_has_one_optional_clause : gen_bid_connectives = [zs "at"%string].
+Proof. exact eq_refl. Qed.
+Print Assumptions bid_has_one_optional_clause.
+
+Local Open Scope string_scope.
+Example log_rule_checked :
+  checked (valid_clause gen_reserved valid_log) (parse_cmd gen_reserved verb_log (T ["st"; "on"; "update"; "as"; "text"]))
+  = Some (T ["st"], [ (zs "on", T ["update"]); (zs "as", T ["text"]) ], []) /\
+  checked (valid_clause gen_reserved valid_log) (parse_cmd gen_reserved verb_log (T ["st"; "as"; "text"; "on"; "sometimes"])) = None /\
+  checked (valid_clause gen_reserved valid_framer) (parse_cmd gen_reserved verb_framer (T ["f"; "first"; "9lives"])) = None.
+Proof. vm_compute. repeat split; reflexivity. Qed.
+Local Close Scope string_scope.
+
+
+
+
 Example do_all_clauses :
   parse_cmd gen_reserved verb_do
     (T ["arbiter"; "switch"; "per"; "b"; "2"; "as"; "my"; "name"; "via"; "x"; "of"; "frame"; "big"; "of"; "framer";
